@@ -649,7 +649,8 @@ def gen_value(rng, ir, t, depth=3, top=False, alphabet='xml', subclass_ok=False)
         top = True      # the text content of a simpleContent type cannot be absent unless it is a string
     if 'attr' in t and t['attr'].get('min_occurs', 0) >= 1:
         top = True      # a required attribute
-    if 'ref' in t and any('attr' in ft and ft['attr'].get('min_occurs', 0) >= 1 for _, ft in all_fields(ir, t['ref'])):
+    req_attr_ = 'ref' in t and any('attr' in ft and ft['attr'].get('min_occurs', 0) >= 1 for _, ft in all_fields(ir, t['ref']))
+    if req_attr_:
         top = True      # XSD wants the required attributes even on a nilled element: "no value" has no valid spelling for such a type
     if not top and (optional or nillable) and rng.random() < .15:
         return None
@@ -663,7 +664,7 @@ def gen_value(rng, ir, t, depth=3, top=False, alphabet='xml', subclass_ok=False)
     if 'enum' in t:
         return rng.choice(t['enum'])
     if 'ref' in t:
-        if depth <= 0:
+        if depth <= 0 and not req_attr_:
             if optional or nillable:
                 return None
         name = t['ref']
